@@ -152,9 +152,26 @@ def schema_argument(rng, *, modal=False, quant=False, ident=False, depth=2):
         lambda: ([neg(Quantified(E, X, P1(X)))], neg(P1(c))),
         lambda: ([Quantified(U, X, b2(O.Disjunction, P1(X), A)), neg(A)], P1(c)),
     ]
-    pool = list(props)
+    # redundancy: premises that OVERLAP, so that what a rule would add is already on the branch when the rule gets there
+    # (the 'already there' shortcuts, applied-instance caches and least-applied counters are only exercised by such input)
+    redundant_modal = [
+        lambda: ([box(A), dia(A)], C),
+        lambda: ([box(A), dia(b2(O.Conjunction, A, B))], C),
+        lambda: ([neg(dia(A)), neg(box(b2(O.Disjunction, A, B)))], C),
+        lambda: ([box(A), box(box(A)), dia(B)], C),
+        lambda: ([box(A), A, dia(neg(B))], box(B)),
+    ]
+    redundant_quant = [
+        lambda: ([Quantified(U, X, P1(X)), P1(c)], B),
+        lambda: ([Quantified(U, X, P1(X)), Quantified(E, X, P1(X))], P2(c2)),
+        lambda: ([Quantified(U, X, b2(O.Conjunction, P1(X), P2(X))), P1(c), P2(c2)], B),
+        lambda: ([neg(Quantified(E, X, P1(X))), neg(P1(c))], B),
+    ]
+    pool = list(props) + [lambda: ([b2(O.Conjunction, A, B), A], C), lambda: ([neg(b2(O.Disjunction, A, B)), neg(B)], C)]
     if modal:
-        pool += modals * 2
+        pool += modals * 2 + redundant_modal * 2
+    if quant:
+        pool += redundant_quant
     if quant:
         pool += quants * 2
     if modal and quant:
